@@ -3,6 +3,8 @@ CONSTANTS
   CAP = 0
   N = 4
   STRICT = TRUE
+  CANCELREJ = FALSE
+  FAST = FALSE
 INVARIANT QueueBound
 INVARIANT FloodBound
 INVARIANT Answered
